@@ -33,11 +33,11 @@ struct Client {
     QByteArray cnonce; QString user, password; SaslScramMechanism mech;
     std::unique_ptr<QXmppSaslClientScram> c;
     // a client after the (real) constructor, the setters; lengths are per-instance constants, contents arbitrary
-    Client(unsigned nlen, unsigned ulen, unsigned plen)
+    Client(unsigned nlen, unsigned ulen, unsigned plen, const SaslScramMechanism *sameMech = nullptr)
     {
         cnonce = vpBytesExact(nlen); vp_assume(vpNoByte(cnonce, ','));   // RFC 5802: nonce = printable without ','
         QXmppSaslDigestMd5::setNonce(cnonce);
-        mech = symMech();
+        mech = sameMech ? *sameMech : symMech();
         c = std::make_unique<QXmppSaslClientScram>(mech, nullptr);
         user = vpStringExact(ulen); password = vpStringExact(plen); vp_assume(vpAscii(user) && vpAscii(password));
         c->setUsername(user);
@@ -115,6 +115,59 @@ extern "C" void h_scram_exchange()
     if (r2) vp_assert(r2->isEmpty(), "C06 SCRAM answer to server-final is empty");
     auto r3 = k.c->respond(QByteArray());
     vp_assert(!r3.has_value(), "C06 SCRAM: no further challenge is answered");
+}
+
+// Two SCRAM logins in the same process, one after the other (two client objects): same hash, same salt and iteration count
+// (what a server sends again on reconnect), nonces and passwords arbitrary (equal or different). The SECOND exchange must be
+// exactly the RFC 5802 exchange for ITS OWN password - nothing derived for the first login may leak into it.
+extern "C" void h_scram_two_sessions()
+{
+    Client k1(vp_cfg(0), vp_cfg(1), vp_cfg(2));
+    Client k2(vp_cfg(0), vp_cfg(1), vp_cfg(2), &k1.mech);
+    auto a0 = k1.c->respond(QByteArray()); auto b0 = k2.c->respond(QByteArray());
+    vp_assume(a0.has_value() && b0.has_value());
+    unsigned ln = vp_cfg(3), ls = vp_cfg(4), li = vp_cfg(5);
+    QByteArray N1 = vpBytesExact(ln), N2 = vpBytesExact(ln), S = vpBytesExact(ls), I = vpBytesExact(li);
+    vp_assume(vpNoByte(N1, ',') && vpNoByte(N2, ',') && vpNoByte(S, ',') && vpNoByte(I, ','));
+    QByteArray sf1("r="); sf1.append(N1); sf1.append(",s="); sf1.append(S); sf1.append(",i="); sf1.append(I);
+    QByteArray sf2("r="); sf2.append(N2); sf2.append(",s="); sf2.append(S); sf2.append(",i="); sf2.append(I);
+    // reference for the second exchange (computed first: the oracle is order-independent)
+    bool okI = false; int iters = I.toInt(&okI);
+    QByteArray salt = QByteArray::fromBase64(S);
+    bool paramsOk = !salt.isEmpty() && okI && iters >= 1;
+    bool expect2 = N2.startsWith(k2.cnonce) && paramsOk;
+    auto alg = k2.mech.qtAlgorithm();
+    QByteArray cfb = b0->mid(3);
+    QByteArray cfwp("c=biws,r="); cfwp.append(N2);
+    QByteArray am(cfb); am.append(','); am.append(sf2); am.append(','); am.append(cfwp);
+    vp_orc_reference(true);
+    QByteArray sp = QPasswordDigestor::deriveKeyPbkdf2(alg, k2.password.toUtf8(), salt, iters, quint64(QCryptographicHash::hashLength(alg)));
+    QByteArray ck = hmac(alg, sp, QByteArray("Client Key"));
+    QByteArray sk = QCryptographicHash::hash(ck, alg);
+    QByteArray cs = hmac(alg, sk, am);
+    QByteArray proof(cs);
+    for (int i = 0; i < proof.size(); i++) proof[i] = char(ck.at(i) ^ cs.at(i));
+    QByteArray expFinal(cfwp); expFinal.append(",p="); expFinal.append(proof.toBase64());
+    QByteArray ssig = hmac(alg, hmac(alg, sp, QByteArray("Server Key")), am);
+    vp_orc_reference(false);
+    unsigned nref = vp_orc_count();
+    // first login
+    hintPieces(sf1, 2 + ln, 2 + ls, 2 + li);
+    auto a1 = k1.c->respond(sf1);
+    vp_assert(a1.has_value() == (N1.startsWith(k1.cnonce) && paramsOk), "C06 SCRAM (first of two logins): server-first accepted iff nonce, salt and iteration count are valid");
+    vp_orc_seal(nref + 6);
+    // second login
+    hintPieces(sf2, 2 + ln, 2 + ls, 2 + li);
+    auto b1 = k2.c->respond(sf2);
+    vp_assert(b1.has_value() == expect2, "C06 SCRAM (second login): server-first accepted iff nonce extends the client nonce, salt non-empty, iteration count >= 1");
+    if (!b1 || !expect2) return;
+    vp_assert(*b1 == expFinal, "C06 SCRAM (second login): client-final carries the RFC 5802 proof for the password of THIS login");
+    vp_assert(k2.c->m_serverSignature == ssig, "C06 SCRAM (second login): expected ServerSignature is derived from the password of THIS login");
+    QByteArray V = vpBytesExact(vp_diglen());
+    QByteArray fin("v="); fin.append(V.toBase64());
+    hintPieces(fin, fin.size());
+    auto b2 = k2.c->respond(fin);
+    vp_assert(b2.has_value() == (V == ssig), "C06 SCRAM (second login): server-final accepted iff it proves the password of THIS login");
 }
 
 // Refusal with arbitrary attribute names: "k1e1V1,k2e2V2,k3e3V3" with arbitrary bytes k, e and values (no ',' inside a value):
